@@ -86,6 +86,7 @@ type Task struct {
 	Leaked     []string // locks still held when the task function returned
 	goid       int64
 	Prio       int // free for strategies (PCT)
+	Held       bool // not runnable until the harness releases it (fired-but-not-run timer callbacks)
 	BlockNote  string
 }
 
@@ -344,7 +345,7 @@ func (k *Kernel) runnable() []*Task {
 		default:
 			continue
 		}
-		if t.Group != 0 && k.groupBusy(t) {
+		if t.Held || (t.Group != 0 && k.groupBusy(t)) {
 			continue
 		}
 		if t == k.last {
